@@ -355,6 +355,10 @@ var c03 = gen.Register(&gen.Check[caseC03]{
 			return nil
 		}
 		if derr != nil {
+			if c.Decoder == "hex" && c.Text != strings.ToLower(c.Text) {
+				o.Class("hex-uppercase-rejected")
+				return nil // whether upper-case hex digits are accepted is not part of the statement
+			}
 			return gen.Fail(site+"/rejects-valid", "%s rejected the valid encoding %x of %s: %v", c.Decoder, data, want, derr)
 		}
 		if got := e.Encode(); !bytes.Equal(got, ref.Compress(want)) {
